@@ -20,6 +20,7 @@ MUTANTS = [
     {'name': 'bracket-upper-half-only', 'rule': 'D2.root', 'file': 'bivariate/base.py', 'old': "brentq(f, EPSILON, 1.0)", 'new': "brentq(f, 0.5, 1.0)"},
     {'name': 'bracket-stops-short-of-one', 'rule': 'D2.root', 'file': 'bivariate/base.py', 'old': "brentq(f, EPSILON, 1.0)", 'new': "brentq(f, EPSILON, 0.9)"},
     {'name': 'scalar-wrapper-transposes', 'rule': 'D2.stack', 'file': 'bivariate/base.py', 'old': "        X = np.column_stack((U, V))\n        return self.partial_derivative(X)", 'new': "        X = np.column_stack((V, U))\n        return self.partial_derivative(X)"},
+    {'name': 'clayton-ppf-decreasing-in-y', 'rule': 'D6.monotone', 'file': 'bivariate/clayton.py', 'old': "            a = np.power(y, self.theta / (-1 - self.theta))", 'new': "            a = np.power(y, self.theta / (1 + self.theta))"},
 ]
 REWRITES = [
     {'name': 'bracket-one-minus-eps', 'file': 'bivariate/base.py', 'old': "brentq(f, EPSILON, 1.0)", 'new': "brentq(f, EPSILON, 1.0 - EPSILON)"},
